@@ -48,7 +48,7 @@ What is missing for the full statement:
   `locations`, `iter`): the arithmetic of `Sem.execLoop`'s `series` against the generated
   increment code, and the discovery instructions with names on the evaluation stack.
 Restrictions of the fragment that are forced by the MODEL (source semantics and machine disagree
-outside them; see the examples at the end of `Proofs/SimStmts.lean`'s header below):
+outside them; concrete scripts are at the end of this file):
 * `Sem` does not model the `result` register, the generated code uses it as scratch: a script
   that READS `result` (`print result` after `print 5`; a `printf` field `{result}`) sees the
   scratch value on the machine and the unmodelled one in `Sem`;
@@ -501,6 +501,32 @@ example : (Sem.run 200 c01Script2 c01Lights2).2.vm.trace.reverse =
      .warn "light not found",
      .setPower "a" 0 2, .setPower "m" 0 2, .setPower "a" 0 2, .setPower "m" 0 2, .setPower "z" 0 2,
      .allColor [1000, 200, 300, 3000] 2] := by decide +kernel
+
+/-! ### why the fragment excludes reading `result` and `setReg unitMode`: on these scripts the
+source semantics and the machine (both of the MODEL) disagree
+
+(`printf "x" 7` — more arguments than fields — is the third such script: by `#eval` the machine's
+trace is `outFmt "x" [] []`, then `out 7` at the final flush, `Sem`'s is `outFmt "x" [7] []`;
+`printf "{result}"` after `print 5` gives `("result", 5)` on the machine and `("result", none)`
+in `Sem`.  Neither can be checked by `decide`, see above.) -/
+
+/-- `print 5  print result`: the machine prints the scratch value 5 again, `Sem` prints `None` -/
+example :
+    let b := Block.ofList [.print (.lit (.int 5)), .print (.reg .result)]
+    (Sem.run 20 b []).2.vm.trace = [.out .none, .out (.int 5)] ∧
+    (Vm.run (Loader.load [.moveq (.int 5) (.reg .result), .out .register (.reg .result),
+        .out .print (.lit .none), .out .register (.reg .result), .out .print (.lit .none)]) 20
+      (Vm.init [])).trace = [.out (.int 5), .out (.int 5)] := by decide +kernel
+
+/-- `setReg unitMode raw  print hue` is the same on both sides only because all colour registers
+are 0; with `hue 120` before it the machine prints the converted 21845, `Sem` 120 -/
+example :
+    let b := Block.ofList [.setReg .hue (.lit (.int 120)), .setReg .unitMode (.lit (.mode .raw)),
+      .print (.reg .hue)]
+    (Sem.run 20 b []).2.vm.trace = [.out (.int 120)] ∧
+    (Vm.run (Loader.load [.moveq (.int 120) (.reg .hue), .moveq (.mode .raw) (.reg .unitMode),
+        .move (.reg .hue) (.reg .result), .out .register (.reg .result), .out .print (.lit .none)]) 20
+      (Vm.init [])).trace = [.out (.num 21845)] := by decide +kernel
 
 end Sim.C01Ex
 end Examples
